@@ -26,6 +26,13 @@ Queries == {[allprop |-> s[1], props |-> s[2], test |-> t, filters |-> f, limit 
            \cup (IF Big THEN {[allprop |-> FALSE, props |-> <<"n2", "n1">>, test |-> t, filters |-> <<f>>, limit |-> 7] : t \in {"", "anyof"}, f \in PropFsOf(TRUE)} ELSE {})
            \cup {[allprop |-> TRUE, props |-> << >>, test |-> t, filters |-> <<f, g>>, limit |-> 1] :
                    t \in {"", "allof"}, f \in {p \in PropFs2 : p.name = "n1"}, g \in {p \in PropFs2 : p.name = "n2" /\ (Big \/ p.test = "allof")}}
+\* a conformant spelling the library's client never produces: negate-condition="no" written out (server direction only)
+RECURSIVE ExplicitNo(_)
+ExplicitNo(n) == IF IsText(n) THEN n
+                 ELSE [n EXCEPT !.attrs = IF n.name = "text-match" /\ ~HasAttr(n, "negate-condition") THEN @ \o <<At("negate-condition", "no")>> ELSE @,
+                                !.kids = [i \in 1..Len(n.kids) |-> ExplicitNo(n.kids[i])]]
+AltQueries == {[q |-> q, srvonly |-> TRUE, doc |-> ExplicitNo(QueryDoc(q))] :
+                 q \in {x \in Queries : x.allprop /\ x.props = << >> /\ x.limit # 7 /\ ExplicitNo(QueryDoc(x)) # QueryDoc(x)}}
 Hrefs == {"h1", "h2", "h3"}
 Multigets == [allprop : {TRUE}, props : {<< >>}, hrefs : UNION {[1..n -> Hrefs] : n \in 1..3}]
              \cup [allprop : {FALSE}, props : {<< >>, <<"n1">>, <<"n2", "n1">>}, hrefs : {<<"h2">>, <<"h3", "h1">>}]
@@ -57,6 +64,7 @@ InvalidDocs ==
 \* ---------- F0: the RFC grammar carries everything the API can say; reader and writer agree
 ASSUME \A q \in Queries : QueryShape(QueryDoc(q)) /\ QueryOrder(QueryDoc(q)) /\ Denotes(QueryDoc(q)) = Norm(q)
 ASSUME \A m \in Multigets : MultigetShape(MultigetDoc(m)) /\ MultigetDenotes(MultigetDoc(m)) = m
+ASSUME AltQueries # {} /\ \A a \in AltQueries : QueryShape(a.doc) /\ Denotes(a.doc) = Norm(a.q)
 HasBogus(q) == \/ q.test = "bogus"
                \/ \E i \in 1..Len(q.filters) :
                     \/ q.filters[i].test = "bogus"
@@ -65,10 +73,10 @@ HasBogus(q) == \/ q.test = "bogus"
 ASSUME \A q \in Queries : InvalidEnums(Norm(q)) = HasBogus(q)
 
 Out == IOEnv.OUT
-ASSUME ndJsonSerialize(Out \o "/queries.ndjson", SetToSeq({[q |-> q, doc |-> QueryDoc(q)] : q \in Queries}))
+ASSUME ndJsonSerialize(Out \o "/queries.ndjson", SetToSeq(AltQueries) \o SetToSeq({[q |-> q, doc |-> QueryDoc(q), srvonly |-> FALSE] : q \in Queries}))
 ASSUME ndJsonSerialize(Out \o "/multigets.ndjson", SetToSeq({[m |-> m, doc |-> MultigetDoc(m)] : m \in Multigets}))
 ASSUME ndJsonSerialize(Out \o "/invalid.ndjson", SetToSeq(InvalidDocs))
-ASSUME PrintT(<<"COUNTS", Cardinality(Queries), Cardinality(Multigets), Cardinality(InvalidDocs)>>)
+ASSUME PrintT(<<"COUNTS", Cardinality(Queries) + Cardinality(AltQueries), Cardinality(Multigets), Cardinality(InvalidDocs)>>)
 VARIABLE x
 Init == x = 0
 Next == UNCHANGED x
